@@ -362,4 +362,105 @@ Section Ext.
       cbn [SerdeSchema.wfj SerdeSchema.jwf] in Hw, Hv. cbn [SerdeSchema.json_s SerdeSchema.of_json_s SerdeSchema.norm_s].
       now rewrite (IH Hw _ Hv).
   Qed.
+
+  (* ---------- values whose maps were filled in ascending key order come back unchanged ---------- *)
+  Definition CN (a : jshape) : Prop :=
+    wfj a = true -> forall v, jwf a v = true -> canonical a v = true -> norm_s a v = v.
+
+  Lemma norm_fields_id fs : forall vs,
+    Forall (fun f => CN (snd f)) fs -> Forall (fun f => wfj (snd f) = true) fs ->
+    all_fields true jwf fs vs = true -> all_fields false canonical fs vs = true ->
+    List.map snd (zip_fields norm_s fs vs) = vs.
+  Proof.
+    induction fs as [|[n a'] fr IH]; intros [|x xr] HP HW Hwf Hc; cbn [all_fields negb] in Hwf, Hc; try discriminate; [reflexivity|].
+    apply andb_prop in Hwf as [Hx Hr]. apply andb_prop in Hc as [Cx Cr].
+    inversion HP as [|? ? Pa Pr]; subst. inversion HW as [|? ? Wa Wr]; subst. cbn [snd] in *.
+    cbn [zip_fields List.map snd]. rewrite (Pa Wa x Hx Cx). f_equal. now apply IH.
+  Qed.
+  Definition can_ofield (a' : jshape) (o : option val) : bool := match o with Some x => canonical a' x | None => true end.
+  Lemma norm_ofields_id fs : forall os,
+    Forall (fun f => CN (snd f)) fs -> Forall (fun f => wfj (snd f) = true) fs ->
+    all_ofields true wf_ofield fs os = true -> all_ofields false can_ofield fs os = true ->
+    List.map snd (zip_ofields norm_ofield fs os) = os.
+  Proof.
+    induction fs as [|[n a'] fr IH]; intros [|o orr] HP HW Hwf Hc; cbn [all_ofields negb] in Hwf, Hc; try discriminate; [reflexivity|].
+    apply andb_prop in Hwf as [Hx Hr]. apply andb_prop in Hc as [Cx Cr].
+    inversion HP as [|? ? Pa Pr]; subst. inversion HW as [|? ? Wa Wr]; subst. cbn [snd] in *.
+    cbn [zip_ofields List.map snd]. f_equal; [|now apply IH].
+    destruct o as [x|]; [|reflexivity]. cbn [norm_ofield wf_ofield can_ofield] in *. apply andb_prop in Hx as [Hx _].
+    now rewrite (Pa Wa x Hx Cx).
+  Qed.
+  Lemma norm_shapes_id fs : forall vs,
+    Forall CN fs -> forallb wfj fs = true -> all_shapes true jwf fs vs = true -> all_shapes false canonical fs vs = true ->
+    zip_shapes norm_s fs vs = vs.
+  Proof.
+    induction fs as [|a' fr IH]; intros [|x xr] HP HW Hwf Hc; cbn [all_shapes negb] in Hwf, Hc; try discriminate; [reflexivity|].
+    apply andb_prop in Hwf as [Hx Hr]. apply andb_prop in Hc as [Cx Cr].
+    inversion HP as [|? ? Pa Pr]; subst. cbn [forallb] in HW. apply andb_prop in HW as [Wa Wr].
+    cbn [zip_shapes]. rewrite (Pa Wa x Hx Cx). f_equal. now apply IH.
+  Qed.
+
+  Lemma map_snd_keyed {A} (f : A -> bytes) (l : list A) : List.map snd (List.map (fun x => (f x, x)) l) = l.
+  Proof. induction l as [|x r IH]; [reflexivity|]. cbn [List.map snd]. now rewrite IH. Qed.
+
+  Theorem serde_canonical a : CN a.
+  Proof.
+    induction a as [l|fs IH|fs IH|vs IH|a' IH|a' IH|fs IH|k okey a' IH|a' IH|f g a' IH] using jshape_ind'; intros Hw v Hv Hc.
+    - reflexivity.
+    - cbn [SerdeSchema.wfj] in Hw. apply andb_prop in Hw as [Hn Hws]. destruct v; try discriminate.
+      cbn [SerdeSchema.jwf SerdeSchema.canonical SerdeSchema.norm_s] in *. f_equal.
+      now apply (norm_fields_id fs l IH (all_wfj_Forall _ Hws)).
+    - cbn [SerdeSchema.wfj] in Hw. apply andb_prop in Hw as [Hn Hws]. destruct v; try discriminate.
+      cbn [SerdeSchema.jwf SerdeSchema.canonical SerdeSchema.norm_s] in *. f_equal.
+      change (zip_ofields (fun a' o => match o with Some x => Some (norm_s a' x) | None => None end)) with (zip_ofields norm_ofield).
+      now apply (norm_ofields_id fs l IH (all_wfj_Forall _ Hws)).
+    - cbn [SerdeSchema.wfj] in Hw. apply andb_prop in Hw as [Hn Hws].
+      destruct v; try discriminate. cbn [SerdeSchema.jwf SerdeSchema.canonical SerdeSchema.norm_s] in *.
+      rewrite pick_nth in Hv, Hc. rewrite pick_nth. destruct (nth_error vs i) as [[n p]|] eqn:En; [|discriminate].
+      assert (Hp : opt_P CN p).
+      { apply nth_error_In in En. rewrite Forall_forall in IH. exact (IH _ En). }
+      assert (Wp : match p with Some a' => wfj a' = true | None => True end).
+      { clear -Hws En. revert i En. induction vs as [|[n' p'] r IHr]; intros [|i] En; cbn [nth_error] in En; try discriminate.
+        - inversion En; subst. cbn [all_wfj_opt] in Hws. apply andb_prop in Hws as [H _]. destruct p; [exact H|exact I].
+        - cbn [all_wfj_opt] in Hws. apply andb_prop in Hws as [_ H]. now apply (IHr H i). }
+      destruct p as [a'|].
+      + apply andb_prop in Hv as [H1 H2]. cbn [opt_P] in Hp. now rewrite (Hp Wp _ H1 Hc).
+      + destruct l; [reflexivity|discriminate].
+    - destruct v as [| | | | | |[|x [|]]| | | |]; try discriminate. cbn [SerdeSchema.jwf SerdeSchema.canonical SerdeSchema.norm_s SerdeSchema.wfj] in *.
+      now rewrite (IH Hw x Hv Hc).
+    - destruct v; try discriminate. cbn [SerdeSchema.jwf SerdeSchema.canonical SerdeSchema.norm_s SerdeSchema.wfj] in *. f_equal.
+      rewrite forallb_forall in Hv, Hc. transitivity (List.map (fun x : val => x) l); [|apply map_id].
+      apply map_ext_in. intros x Hx. apply IH; auto.
+    - destruct v; try discriminate. cbn [SerdeSchema.jwf SerdeSchema.canonical SerdeSchema.norm_s SerdeSchema.wfj] in *. f_equal.
+      now apply norm_shapes_id.
+    - destruct v; try discriminate. cbn [SerdeSchema.jwf SerdeSchema.canonical SerdeSchema.norm_s SerdeSchema.wfj] in *. f_equal.
+      apply andb_prop in Hc as [Hc C3]. apply andb_prop in Hc as [C1 C2].
+      set (K := List.map (fun kv : val * val => (key_str k (fst kv), kv)) l).
+      assert (PK : Permutation (aof_list K) K).
+      { apply aof_list_perm. unfold K. rewrite map_map. cbn [fst]. now apply bytes_nodupb_NoDup. }
+      (* the entries come back with unchanged values *)
+      assert (EN : List.map (fun e : bytes * (val * val) => (fst (snd e), norm_s a' (snd (snd e)))) (aof_list K) = List.map snd (aof_list K)).
+      { apply map_ext_in. intros e He. apply aof_list_in in He. unfold K in He. apply in_map_iff in He as [[kk vv] [<- Hin]].
+        cbn [fst snd]. rewrite forallb_forall in Hv, C3. specialize (Hv _ Hin). specialize (C3 _ Hin). cbn [fst snd] in Hv, C3.
+        apply andb_prop in Hv as [_ H3]. now rewrite (IH Hw vv H3 C3). }
+      rewrite EN. unfold osort.
+      assert (PL : Permutation (List.map snd (aof_list K)) l).
+      { eapply Permutation_trans; [apply Permutation_map; exact PK|]. unfold K. rewrite map_snd_keyed. reflexivity. }
+      rewrite (aof_list_of_perm (List.map (fun kv : val * val => (okey (fst kv), kv)) l)); [apply map_snd_keyed|exact C1|].
+      apply Permutation_map. exact PL.
+    - cbn [SerdeSchema.wfj] in Hw. destruct v; cbn [SerdeSchema.jwf SerdeSchema.canonical SerdeSchema.norm_s] in *; try reflexivity;
+        apply andb_prop in Hv as [H1 _]; now apply IH.
+    - cbn [SerdeSchema.wfj SerdeSchema.jwf SerdeSchema.canonical SerdeSchema.norm_s] in *. apply andb_prop in Hc as [C1 C2].
+      rewrite (IH Hw _ Hv C1). now apply val_eqb_sound.
+  Qed.
+
+  (* ===== the typed-value clause for an annotated type ===== *)
+  Theorem serde_roundtrip a v :
+    wfj a = true -> jwf a v = true -> canonical a v = true -> of_json_s a (json_s a v) = Ok v.
+  Proof. intros Hw Hv Hc. rewrite (serde_read_write a Hw v Hv). now rewrite (serde_canonical a Hw v Hv Hc). Qed.
+
+  Corollary serde_roundtrip_bytes (s : schema) a v :
+    wfj a = true -> jwf a v = true -> canonical a v = true ->
+    exists v', of_json_s a (json_s a v) = Ok v' /\ v' = v /\ enc s v' = enc s v.
+  Proof. intros Hw Hv Hc. exists v. split; [now apply serde_roundtrip|split; reflexivity]. Qed.
 End Ext.
